@@ -55,6 +55,22 @@ pub fn dump() -> Value {
             }
         }
     }
-    json!({"uppercase": upper, "lowercase": Value::Object(lower), "unicase_fold": Value::Object(fold),
+    // Cased / Case_Ignorable classes as seen by str::to_lowercase's final-sigma rule (the properties are private in std):
+    // with S = U+03A3:  lower("A S c") ends in final sigma  and  lower("A S c B") does not  <=>  c is case-ignorable;
+    //                   lower("A S c") does not end in final sigma                          <=>  c is cased and not ignorable.
+    let mut ignorable = Vec::new();
+    let mut cased = Vec::new();
+    for c in (0u32..0x110000).filter_map(char::from_u32) {
+        let t1: String = format!("A\u{3a3}{}", c).to_lowercase();
+        let t2: String = format!("A\u{3a3}{}B", c).to_lowercase();
+        let f1 = t1.chars().nth(1) == Some('\u{3c2}');
+        let f2 = t2.chars().nth(1) == Some('\u{3c2}');
+        if f1 && !f2 {
+            ignorable.push(c as u32);
+        } else if !f1 {
+            cased.push(c as u32);
+        }
+    }
+    json!({"case_ignorable": ignorable, "cased_not_ignorable": cased, "uppercase": upper, "lowercase": Value::Object(lower), "unicase_fold": Value::Object(fold),
            "rustc": option_env!("RUSTC_VERSION").unwrap_or("")})
 }
